@@ -1,8 +1,6 @@
-(* C05 judge: 0 agree & holds; 1 differ, holds; 2 an (exception, set) pair was rethrown twice or a wait that loaded guard = Set did not
-   go on to move/reset/rethrow. *)
+(* C05 judges: rethrow discipline (lockstep trace and log).  The judge functions themselves are shared: judge_C05 / judge_C05_impl in Model/TaskSetImplCheck.v (independent of the
+   regenerated decision functions) and, for the decision runs, judge_*_d in Model/TaskSetCheck.v. *)
 From Coq Require Import ZArith List Bool.
-From DV Require Import Base.MachInt Base.Sched Model.TaskSetModel Gen.GenTaskSet Model.TaskSetCheck.
-Import ListNotations.
+From DV Require Export Model.TaskSetImplCheck Model.TaskSetCheck.
 Local Open Scope Z_scope.
-
-Definition judge_C05 (c : lcase) : Z := if negb (check_C05 c) then 2 else if agrees c then 0 else 1.
+Definition C05_judge_lockstep := judge_C05.
